@@ -18,7 +18,7 @@
            bl bh = Bounds(), cbl = CDF(bl), cbh = CDF(bh), x = InvCDF(y), xm = x - tol, c0 = CDF(x), cm = CDF(xm)
    All of x l v bl bh y obs ... are float64 bit patterns; st: 0 = returned, 2 = panicked.
    knot (x, l, v): break point, left limit, value (see Model/InvCDF.v). *)
-From MM Require Import Base.Num Model.Choose Model.Binom Model.Hyperg Model.InvCDF.
+From MM Require Import Base.Num Model.Choose Model.Binom Model.Hyperg Model.InvCDF Check.C06.
 From Coq Require Import Qround.
 Local Open Scope Z_scope.
 
@@ -141,6 +141,19 @@ Definition pw_scale (pw : pwf) : Q := Qmaxabs (map (fun k : knot => fst (fst k))
    cdf >= t: disc_quantile (Proofs: disc_quantile_spec) *)
 Definition cdf_table := disc_table.
 Definition first_ge := disc_quantile.
+(* Above [small_limit] (= 14, Check/C06.v) the model functions binom_cdf_i / hg_cdf_i are too slow to
+   tabulate (N = 80: 35 s); the exact cumulative probabilities then come from C06's shared table
+   (running sums of integer weights over a common denominator; Check/C06.v checks it against the model
+   functions for every N <= 14 on every run, Proofs/C06Table.v proves the equality). *)
+Fixpoint fast_entries (t : table) (i : nat) (cnt : nat) : list (Z * Q) :=
+  match cnt with
+  | O => []
+  | S c => match tab_q t (t_cum t) (Z.of_nat i) with
+           | Some q => (t_lo t + Z.of_nat i, Qred q) :: fast_entries t (S i) c
+           | None => []
+           end
+  end.
+Definition fast_table (t : table) : list (Z * Q) := fast_entries t 0 (length (t_cum t)).
 
 Definition check_disc_y (tab : list (Z * Q)) (lo hi : Z) (y : xreal) (st : Z) (obs : xreal) : Z * option (list Z) :=
   match y with
@@ -264,7 +277,8 @@ Definition check_C07 (line : list Z) : list Z :=
       match (do n <- pZ; do p <- pQ; do items <- plist p_item; pend (n, p, items)) rest with
       | Some ((n, p, items), _) =>
           if (n <? 0) || (200 <? n) || Qltb p 0 || Qltb 1 p then verdict V_MALFORMED 0 (-1) [] else
-          let tab := cdf_table (binom_cdf_i n p) 0 (Z.to_nat (n + 1)) in
+          let tab := if n <=? small_limit then cdf_table (binom_cdf_i n p) 0 (Z.to_nat (n + 1)) else fast_table (binom_table n p) in
+          if negb (Z.of_nat (length tab) =? n + 1) then verdict V_MALFORMED 0 (-1) [98] else
           finish (run_disc_items tab 0 n items 0 0)
       | None => verdict V_MALFORMED 0 (-1) []
       end
@@ -273,7 +287,8 @@ Definition check_C07 (line : list Z) : list Z :=
       | Some ((N, K, n, items), _) =>
           if (N <? 2) || (200 <? N) || (K <? 0) || (N <? K) || (n <? 0) || (N <? n) then verdict V_MALFORMED 0 (-1) [] else
           let lo := hg_lo N K n in let hi := hg_hi N K n in
-          let tab := cdf_table (hg_cdf_i N K n) lo (Z.to_nat (hi - lo + 1)) in
+          let tab := if N <=? small_limit then cdf_table (hg_cdf_i N K n) lo (Z.to_nat (hi - lo + 1)) else fast_table (hg_table N K n) in
+          if negb (Z.of_nat (length tab) =? hi - lo + 1) then verdict V_MALFORMED 0 (-1) [98] else
           finish (run_disc_items tab lo hi items 0 0)
       | None => verdict V_MALFORMED 0 (-1) []
       end
